@@ -305,6 +305,92 @@ proof {
 """),
     ])
 
+PART_PRE = 'partition@.len() <= u32::MAX, exists|n: int| part_ok(pv(partition@), n) && forall|s: StateID, cc: CharClassID, t: StateID| #[trigger] tm_edge(transitions@, s, cc, t) ==> t.0 < n,'
+
+split_group = Fn(F_MIN, 'Minimizer', 'split_group', ret='r', props=P, attrs='#[verifier::loop_isolation(false)] #[verifier::allow_complex_invariants]',
+    spec="""
+requires
+    """ + PART_PRE + """
+ensures
+    // the group is cut into non-empty, disjoint pieces; members of one piece move into the same groups under the same classes
+    split_ok(transitions@, pv(partition@), group@, pv(r@)),
+""",
+    edits=TRACE + [
+        Ins('body_start', None, """
+broadcast use axiom_stateid_cmp, axiom_sigkey_cmp;
+let ghost tm = transitions@;
+let ghost p = pv(partition@);
+"""),
+        Replace('E6', 'return vec![group.clone()];', """{
+    let __g = group.clone();
+    let __r = vec![__g];
+    proof {
+        lemma_single_group(tm, p, group@);
+        assert(pv(__r@) =~= seq![group@]);
+    }
+    return __r;
+}""", why='the returned vector is let-bound so that ghost code can name it (E6)'),
+        Ins('before', 'for state_id in group {', 'let ghost mut done: Seq<StateID> = Seq::empty();'),
+        ForLoop('for state_id in group {', it='__it1', via='%s.iter()', label='split_group.collect',
+                pre='let ghost rem = __it1.remaining(); proof { assert(rem.unref().to_set() == group@); assert(rem.no_duplicates()); }',
+                body_pre="""
+proof {
+    if __it1.remaining().len() == 0 {
+        assert forall|x: StateID| #[trigger] group@.contains(x) <==> done.contains(x) by {
+            assert(rem.unref().to_set().contains(x) <==> rem.unref().contains(x));
+            if rem.unref().contains(x) { let i = choose|i: int| 0 <= i < rem.unref().len() && rem.unref()[i] == x; assert(done[i] == x); }
+            if done.contains(x) { let i = choose|i: int| 0 <= i < done.len() && done[i] == x; assert(rem.unref()[i] == x); }
+        }
+    }
+    assert(true);
+}
+""", spec="""
+invariant
+    __it1.obeys_prophetic_iter_laws(), __it1.decrease() is Some,
+    rem.unref().to_set() == group@, rem.no_duplicates(),
+    __it1.remaining().len() <= rem.len(),
+    forall|q: int| 0 <= q < __it1.remaining().len() ==> #[trigger] __it1.remaining()[q] == rem[rem.len() - __it1.remaining().len() + q],
+    done.len() == rem.len() - __it1.remaining().len(), forall|i: int| 0 <= i < done.len() ==> #[trigger] done[i] == *rem[i],
+    split_inv(tm, p, transition_map_to_states@, done),
+ensures
+    __it1.remaining().len() == 0, split_inv(tm, p, transition_map_to_states@, done),
+    forall|x: StateID| #[trigger] group@.contains(x) <==> done.contains(x),
+decreases __it1.decrease()->0
+"""),
+        Ins('after', 'for state_id in group {', """
+let ghost i0 = rem.len() - __it1.remaining().len() - 1;
+proof {
+    assert(state_id == rem[i0]);
+    assert(!done.contains(*state_id)) by {
+        if done.contains(*state_id) { let j = choose|j: int| 0 <= j < done.len() && done[j] == *state_id; assert(*rem[j] == *rem[i0]); assert(rem[j] == rem[i0]); }
+    }
+}
+"""),
+        Replace('E14', 'transition_map_to_states.entry(transitions_to_partition).or_default().insert(*state_id);', """{
+    let __k = transitions_to_partition;
+    let ghost mv0 = transition_map_to_states@;
+    match transition_map_to_states.get_mut(&__k) {
+        Some(__v) => { __v.insert(*state_id); }
+        None => { let mut __v: StateGroup = Default::default(); __v.insert(*state_id); transition_map_to_states.insert(__k, __v); }
+    }
+    proof {
+        lemma_split_step(tm, p, mv0, transition_map_to_states@, done, *state_id, __k);
+        done = done.push(*state_id);
+    }
+}""", why='`m.entry(k).or_default().insert(x)` is `match m.get_mut(&k) { Some(v) => { v.insert(x); } None => { let mut v = Default::default(); v.insert(x); m.insert(k, v); } }` (std definition of Entry::or_default)'),
+        Replace('U5', 'transition_map_to_states.into_values().collect::<Partition>()', """{
+    let ghost mvf = transition_map_to_states@;
+    let __r = verif_into_values(transition_map_to_states);
+    proof {
+        let ks = choose|ks: Seq<TransitionsToPartitionGroups>| #![trigger ks.len()] ks.len() == __r@.len() && ks.no_duplicates()
+            && (forall|i: int| 0 <= i < ks.len() ==> mvf.contains_key(#[trigger] ks[i]) && __r@[i] == mvf[ks[i]])
+            && (forall|k: TransitionsToPartitionGroups| #[trigger] mvf.contains_key(k) ==> ks.contains(k));
+        lemma_split_final(tm, p, mvf, group@, done, ks, __r@);
+    }
+    __r
+}""", why='TRUSTED std contract through a wrapper: BTreeMap::into_values().collect::<Vec<_>>() (the call is moved verbatim into an external_body function)'),
+    ])
+
 FUNCS = [
     Raw(umin.UNIT['items'][0].text.replace('pub type StateGroup = BTreeSet<StateID>;\n', '').replace('pub struct Minimizer;\n', ''), label='trusted std contract: Iterator::position; derived Ord of StateID'),
     Fn(F_MIN, 'TransitionsToPartitionGroups', 'new', ret='r', props=P, spec='ensures r.0@.len() == 0', external_body=True, trusted_reason='Self::default() of the derived Default: an empty vector (rule E4)'),
@@ -313,6 +399,7 @@ FUNCS = [
     umin.find_group,
     initial_partition,
     build_sig,
+    split_group,
 ]
 
 UNIT = dict(
